@@ -290,6 +290,9 @@ def run(ctx: Ctx):
                 if isinstance(src, ast.Call) and (dotted(src.func) or "").split(".")[-1] in pairgens:
                     ctx.ok("flag-covers-value", {"function": fname, "delegates_to": dotted(src.func)})
                     continue
+                if isinstance(src, ast.Call) and _table_of_pairgens(m, fn, src.func, pairgens):
+                    ctx.ok("flag-covers-value", {"function": fname, "delegates_to": "table:" + ast.unparse(src.func)[:40]})
+                    continue
                 if isinstance(src, ast.GeneratorExp) and isinstance(src.elt, ast.Tuple) and len(src.elt.elts) == 2:
                     V, X = src.elt.elts
                     lv, lx = {}, {}
@@ -513,6 +516,31 @@ def _testdata_flatten(ctx: Ctx):
                       f"{exp.get(k)!r}: vectors are generated (and labelled) against the wrong property type", flatten.P_TD, None)
 
 
+def _table_of_pairgens(m, fn, callee, pairgens) -> bool:
+    """`yield from H(...)` where H was looked up in a dispatch table all of whose values are pair generators of this
+    module (each of which is analysed by the same rule)."""
+    look = callee
+    if isinstance(callee, ast.Name):
+        defs = [st.value for st in ast.walk(fn) if isinstance(st, ast.Assign)
+                and any(isinstance(t, ast.Name) and t.id == callee.id for t in st.targets)]
+        if len(defs) != 1:
+            return False
+        look = defs[0]
+    table = None
+    if isinstance(look, ast.Subscript):
+        table = look.value
+    elif isinstance(look, ast.Call) and isinstance(look.func, ast.Attribute) and look.func.attr == "get" and len(look.args) == 1:
+        table = look.func.value
+    if not isinstance(table, ast.Name):
+        return False
+    vals = [st.value for st in m.tree.body if isinstance(st, (ast.Assign, ast.AnnAssign)) and getattr(st, "value", None) is not None
+            and any(isinstance(t, ast.Name) and t.id == table.id
+                    for t in (st.targets if isinstance(st, ast.Assign) else [st.target]))]
+    if len(vals) != 1 or not isinstance(vals[0], ast.Dict) or not vals[0].values:
+        return False
+    return all(isinstance(v, ast.Name) and v.id in pairgens for v in vals[0].values)
+
+
 _run_c17 = run
 
 
@@ -527,3 +555,11 @@ def run(ctx: Ctx):  # noqa: F811
         ctx.notes.append(f"syntactic file-name rule skipped: {e}")
     _fold_generate(ctx)
     _testdata_flatten(ctx)
+    # labels are computed against the model being generated from: no lookup cache / memo may carry definitions of an
+    # earlier model into the next run
+    from ..genlint import cross_run_state, Index as _Index
+    idx = _Index(ctx.src, dirs=("generator/plugins/testdata",))
+    nstate, hits = cross_run_state(idx, "generator/plugins/testdata/")
+    for rel, construct, msg, ln in hits:
+        ctx.fail("labels-from-current-model", construct, msg, rel, ln)
+    ctx.ok("labels-from-current-model", {"containers_examined": nstate})
